@@ -232,10 +232,23 @@ fn scaled(r: &mut Rng, lo: usize, hi: usize) -> usize {
     r.range(lo * k, hi * k)
 }
 
+/// Type-position macro invocations; `TYPE_MACRO_DEFS` defines them for layers that compile the item.
+pub const TYPE_MACROS: &[&str] = &["Arr ! [u8 , 4]", "Arr ! [i64 , 2 + 1]", "Same ! (Vec < u16 >)", "Pair ! { String , & 'static str }", "Same ! [Arr ! (bool , 3)]"];
+pub const TYPE_MACRO_DEFS: &str = "macro_rules! Arr { ($t:ty, $n:expr) => { [$t; $n] }; } macro_rules! Same { ($t:ty) => { $t }; } macro_rules! Pair { ($a:ty, $b:ty) => { ($a, $b) }; }";
+
 /// `TryInto` enum with several distinct (ref-kind x field-type-tuple) groups.
 pub fn family_try_into(r: &mut Rng) -> Key {
     let groups = scaled(r, 3, 8);
-    let tys = distinct_types(r, groups);
+    let mut tys = distinct_types(r, groups);
+    // types written through type-position macros (the derive sees the invocation, not what it expands to)
+    if r.chance(1, 3) {
+        for (k, t) in TYPE_MACROS.iter().enumerate() {
+            if r.chance(1, 2) && k < tys.len() {
+                tys[k] = t.to_string();
+            }
+        }
+        r.shuffle(&mut tys);
+    }
     let mut variants = Vec::new();
     for (i, t) in tys.iter().enumerate() {
         let reps = if r.chance(1, 3) { 2 } else { 1 };
@@ -391,17 +404,53 @@ pub fn family_from_into(r: &mut Rng) -> Key {
 pub fn family_fmt(r: &mut Rng) -> Key {
     let n = scaled(r, 2, 6);
     let params: Vec<String> = (0..n).map(|i| format!("P{i}")).collect();
-    let fields: Vec<String> = params.iter().enumerate().map(|(i, p)| format!("f{i} : {p}")).collect();
+    // a parameter bare or inside a compound type, next to compound types that mention no parameter at all
+    // (whether a field type "contains generics" decides which bounds are emitted)
+    let mut fields: Vec<String> = params
+        .iter()
+        .enumerate()
+        .map(|(i, p)| {
+            let ty = match r.below(8) {
+                0 => format!("Vec < {p} >"),
+                1 => format!("Option < Box < {p} > >"),
+                2 => format!("& 'static [{p}]"),
+                3 => format!("({p} , u8)"),
+                _ => p.clone(),
+            };
+            format!("f{i} : {ty}")
+        })
+        .collect();
+    let plain = r.below(4);
+    for j in 0..plain {
+        fields.push(format!(
+            "g{j} : {}",
+            r.pick(&["Option < u16 >", "Vec < u8 >", "[u8 ; 4]", "& 'static str", "(i32 , String)", "Option < Vec < Box < [u64 ; 2] > > >", "std :: collections :: BTreeMap < String , Vec < u8 > >", "fn (u8) -> Option < u8 >"])
+        ));
+    }
+    if r.chance(1, 4) {
+        // no container-level format: every field is formatted (and bounded) by itself; one may carry its own format
+        let name = ident(r, "Fm");
+        let k = r.below(fields.len());
+        if r.chance(1, 2) {
+            fields[k] = format!("# [debug (\"{{:?}}\" , {})] {}", fields[k].split(' ').next().unwrap(), fields[k]);
+        }
+        return Key { derive: "Debug".into(), item: format!("struct {name} < {} > {{ {} }}", params.join(" , "), fields.join(" , ")) };
+    }
     let mut order: Vec<usize> = (0..n).collect();
     r.shuffle(&mut order);
     let specs = ["{}", "{:?}", "{:x}", "{:>5}", "{:#?}", "{:e}"];
-    let lit: Vec<String> = order
+    let mut lit: Vec<String> = order
         .iter()
         .map(|i| {
             let s = *r.pick(&specs);
             s.replacen('{', &format!("{{f{i}"), 1)
         })
         .collect();
+    for j in 0..plain {
+        if r.chance(1, 2) {
+            lit.push(format!("{{g{j}:?}}"));
+        }
+    }
     let name = ident(r, "Fm");
     let derive = *r.pick(&["Display", "Debug"]);
     let attr = if derive == "Display" { "display" } else { "debug" };
@@ -789,13 +838,20 @@ pub fn rerender(item: &str, r: &mut Rng) -> Option<String> {
         // for reasons that have nothing to do with the derive
         *r.pick(&[" ", " ", " ", "  ", "\t", "\n", "\n    ", "    ", "\n\n", "   \n\n"])
     }
+    // 0 = start / after a joint punct (nothing may be inserted), 1 = word-like (ident, literal, group), 2 = lone punct
     fn walk(ts: TokenStream, r: &mut Rng, out: &mut String) {
-        let mut glue = true; // no separator before the first token of a stream
+        let mut prev = 0u8;
         for tt in ts {
-            if !glue {
-                out.push_str(sep(r));
+            let cur = if matches!(tt, TokenTree::Punct(_)) { 2u8 } else { 1u8 };
+            if prev != 0 {
+                // tokens may also touch where that cannot merge them (`u8,4`, `Vec<u8>`, `Arr![..]`): whether two
+                // tokens were adjacent in the source is something rustc remembers and prints back
+                if prev != cur && r.chance(1, 3) {
+                } else {
+                    out.push_str(sep(r));
+                }
             }
-            glue = false;
+            prev = cur;
             match tt {
                 TokenTree::Group(g) => {
                     let (o, c) = match g.delimiter() {
@@ -805,15 +861,20 @@ pub fn rerender(item: &str, r: &mut Rng) -> Option<String> {
                         Delimiter::None => ("", ""),
                     };
                     out.push_str(o);
-                    out.push_str(sep(r));
+                    let tight = !o.is_empty() && r.chance(1, 3);
+                    if !tight {
+                        out.push_str(sep(r));
+                    }
                     walk(g.stream(), r, out);
-                    out.push_str(sep(r));
+                    if !tight {
+                        out.push_str(sep(r));
+                    }
                     out.push_str(c);
                 }
                 TokenTree::Punct(p) => {
                     out.push(p.as_char());
                     if p.spacing() == Spacing::Joint {
-                        glue = true;
+                        prev = 0;
                     }
                 }
                 TokenTree::Ident(i) => out.push_str(&i.to_string()),
